@@ -205,6 +205,7 @@ inductive DeErr where
   | unknownVariant (s : Bytes)
   | invalidType
   | invalidLength
+  | rejected                               -- the value parsed, but a loader refused it (an acceptance condition)
   deriving DecidableEq, Repr
 
 def indexOf (s : Bytes) : List Bytes → Option Nat
@@ -317,6 +318,14 @@ def deFields : List Field → List (Bytes × J) → Except DeErr (List RVal)
       | none => .error (.missingField n)
       | some v => okMap (v :: ·) (deFields fs kvs)
 end
+
+/-- A loader of the code: parse, then possibly refuse.  `plain = true` says the loaders found in the source
+    (`Gen.loaderSites`) do nothing between `serde_json::from_str/from_reader` and the use of the value; otherwise
+    `accept` stands for whatever acceptance condition they impose (`Gen.loaderConditions`). -/
+def load (plain : Bool) (accept : RVal → Bool) (t : Ty) (j : J) : Except DeErr RVal :=
+  match de t j with
+  | .ok v => if plain || accept v then .ok v else .error .rejected
+  | .error e => .error e
 
 -- typing, guard, schema checks -----------------------------------------------------------------------
 
